@@ -1036,6 +1036,10 @@ class Pass2(CompilePass):
     def process_def_seg_pre(self, node):
         self._check_numeric_operands(node, ['segment'])
 
+    def process_kill_pre(self, node):
+        if node.filespec.type != Type.STRING:
+            raise CompileError(EC.TYPE_MISMATCH, node=node.filespec)
+
     def process_play_pre(self, node):
         if node.command_string.type != Type.STRING:
             raise CompileError(EC.TYPE_MISMATCH,
